@@ -108,6 +108,12 @@ def run(ctx, scale=1):
     stmts += pool.expr_statements(ctx, (300 if ctx.quick else 5000) * scale, depth=(2, 3))
     stmts += [{"sql": s, "dialect": "common", "origin": "targeted"} for s in [
         "select a1 + ~ b2 from t3", "select a1 = not b2 from t3", "select sum(x1) filter (where c2 > 3) over (partition by p4 order by o5) from t6",
+        # aggregate modifiers in every order the grammar accepts
+        "select percentile_cont(0.5) within group (order by x1) filter (where y2 > 3) from t4",
+        "select percentile_cont(0.25) within group (order by x1 desc) over (partition by p5) from t4",
+        "select sum(x1) over (partition by p5 order by o6) filter (where y2 > 3) from t4",
+        "select a1 from t4 group by a1 having percentile_cont(0.5) within group (order by x2) filter (where y3 > 4) > 7",
+        "select count(distinct x1) filter (where y2 > 3), array_agg(x4 order by z6) filter (where y5 > 8) from t7",
         "select a1 from t2 union select b3 from u4 fetch first 5 rows only", "select a1 from t2 union select b3 from u4 for update of z9",
         "select a1 between b2 and c3 from t4", "select a1 from t2 where x3 in (select y4 from u5) and z6 like 's7'",
         "insert into t1 (c2, c3) values (4, 's5'), (6, 's7')", "insert into t1 (col2) values (4), (6)", "insert into t1 (col2) values ('s4'), ('s6'), ('s8')",
